@@ -1,6 +1,7 @@
 package main
 
 import (
+	"fmt"
 	"os"
 	"strings"
 )
@@ -115,6 +116,43 @@ func runC02(c *Ctx) {
 		cl.Note = "systematic"
 		calls = append(calls, cl)
 		nfieldrec += len(s.bounds)
+	}
+	// 2b. large definitions: many fields and many developer fields
+	for _, nf := range []int{0, 1, 85, 86, 170, 255} {
+		for _, nd := range []int{-1, 0, 1, 85, 86, 171, 255} {
+			arch := byte((nf + nd) & 1)
+			s := newStream(12, false)
+			s.FileId(0, arch, 4)
+			var fs []FieldDef
+			for f := 0; f < nf; f++ {
+				fs = append(fs, FieldDef{byte(f), 1, 0x02}) // heart_rate etc. and unknown numbers, one byte each
+			}
+			for f := range fs {
+				if pf := p.field(20, int(fs[f].Num)); pf != nil {
+					g0 := &generator{rng: newRng(c.Seed), p: p, sch: sch, k: defaultKnobs()}
+					g0.k.pNarrow = 0
+					fs[f] = g0.fieldDefFor(pf)
+				}
+			}
+			var dev []DevDef
+			if nd >= 0 {
+				dev = []DevDef{}
+				for d := 0; d < nd; d++ {
+					dev = append(dev, DevDef{byte(d), byte(d % 3), 0})
+				}
+			}
+			gg := &generator{rng: newRng(c.Seed + int64(nf*1000+nd)), p: p, sch: sch, k: defaultKnobs(), now: 0x33000000}
+			gg.k.noTimeNoise = true
+			s.Def(1, arch, 20, fs, dev)
+			s.Data(1, gg.payloadFor(s.defs[1]))
+			s.Data(1, gg.payloadFor(s.defs[1]))
+			s.Def(2, arch, 20, []FieldDef{{3, 1, 2}}, nil)
+			s.Data(2, []byte{99})
+			id++
+			cl := p.runCall(id, "decode", s.Bytes(), plain, CallOpts{}, true)
+			cl.Note = fmt.Sprintf("large definition: %d fields, %d developer fields", nf, nd)
+			calls = append(calls, cl)
+		}
 	}
 	// 3. random profile-driven streams
 	g := &generator{rng: newRng(c.Seed), p: p, sch: sch, k: defaultKnobs()}
